@@ -69,6 +69,7 @@ PROFILES = {
                 supvisors_failure_strategies=['CONTINUE'], p_absent=0.05, p_disabled=0.0, p_trigger_op=0.3,
                 p_heal=0.9, p_final_heal=1.0),
     'C06': dict(BASE, max_faults=1, min_faults=1, ops='none', fault_weights={'crash': 1}, fault_window=(25.0, 120.0),
+                ops_near_fault=[0, 0, 1, 1, 2], startsecs=[0, 1, 2, 4, 8, 12],
                 child_kinds={'ok': 0.97, 'exec_fail': 0.03}, autorestart=['false'], p_autostart=0.0, p_sequenced=0.9,
                 p_app_sequenced=1.0,
                 running_failure=['CONTINUE', 'RESTART_PROCESS', 'STOP_APPLICATION', 'RESTART_APPLICATION'],
@@ -106,7 +107,17 @@ PROFILES = {
                 p_sees_isolated=0.3, p_strategy_mismatch=0.25, n_real=[1, 1, 2],
                 weights={'event': 40, 'forced': 5, 'removed': 5, 'added': 5, 'down': 3, 'mute': 4, 'stealth': 2,
                          'disability': 5, 'op': 3, 'tick': 8, 'state': 8, 'replay': 12}),
-    'C02': dict(BASE, max_faults=5, ops='fsm'),
+    'C15': dict(builder='puppet', p_managed=0.9, p_numprocs=0.25, p_autostart=0.2, n_groups=[1, 2, 2], n_programs=[1, 2, 3, 4],
+                child_kinds={'ok': 0.6, 'exit_late': 0.2, 'exit_early': 0.1, 'backoff_then_ok': 0.05, 'exec_fail': 0.05},
+                supvisors_failure_strategies=['CONTINUE'], p_auto_fence=0.3, formulas=0.7,
+                inactivity_ticks=[2, 2, 3], hostile=0.0, window=(18.0, 140.0), quiesce=40.0, n_events=(10, 100)),
+    'C02': dict(BASE, max_faults=6, ops='fsm', running_failure=gen.RUNNING_FAILURE + ['RESTART', 'SHUTDOWN'],
+                p_autostart=0.4, p_late_boot=0.4,
+                fault_weights={'crash': 2, 'restart': 3, 'partition': 2, 'stall': 1, 'slow': 1, 'clock_jump': 0.5,
+                               'child_exit': 5},
+                p_trigger=0.5, trigger_states=['ELECTION', 'ELECTION', 'ELECTION', 'DISTRIBUTION', 'OPERATION',
+                                               'CONCILIATION', 'RESTARTING', 'SHUTTING_DOWN', 'SYNCHRONIZATION'],
+                trigger_delays=[0.0, 0.0, 0.0, 0.002, 0.05, 0.5, 2.0]),
     'C16': dict(BASE, max_faults=5, ops='all', p_absent=0.3, p_shared_node=0.5),
 }
 
@@ -138,6 +149,17 @@ def build(prop, seed):
                 plan.append({'kind': 'crash', 'inst': '$dst',
                              'trigger': {'wire': 'supvisors.start_args', 'n': rng.randint(1, 4), 'after': op['t'] - 1.0,
                                          'delay': gen.pick(rng, [0.0, 0.0, 0.001, 0.05, 0.5])}})
+    if prof.get('ops_near_fault'):
+        # user operations landing between a crash and its detection: the loss is then handled while the Master's
+        # Starter / Stopper is busy with something else
+        apps = [g['name'] for g in config['groups']]
+        ticks = config['supvisors'].get('inactivity_ticks', 2)
+        for fault in [i for i in plan if i['kind'] == 'crash' and 't' in i]:
+            for _ in range(gen.pick(rng, prof['ops_near_fault'])):
+                method = gen.pick(rng, ['start_application', 'restart_application', 'stop_application'])
+                args = [gen.pick(rng, apps), False] if method == 'stop_application' else [0, gen.pick(rng, apps), False]
+                plan.append({'t': round(fault['t'] + rng.uniform(0.0, 5.0 * ticks + 6.0), 3), 'kind': 'rpc',
+                             'inst': '$master', 'method': 'supvisors.' + method, 'args': args})
     t_end = prof['fault_window'][1] + prof['quiesce'] + config['supvisors']['synchro_timeout']
     scen = {'prop': prop, 'seed': seed, 'config': config, 'plan': plan, 't_end': t_end}
     if prof.get('event_drop'):
@@ -177,6 +199,9 @@ def observers_for(prop, scen):
     elif prop == 'C13':
         from oracles import isolation
         obs.append(isolation.Isolation())
+    elif prop == 'C15':
+        from oracles import appstatus
+        obs.append(appstatus.ApplicationStatusMonitor())
     elif prop == 'C11':
         from oracles import synthesis
         obs.append(synthesis.Synthesis())
